@@ -46,6 +46,9 @@ M = [
  ('C18-verbose-writes-stdout', 'dfs/cmd_cat.cc', "	  std::cerr << \"Screen width is \";", "	  std::cout << \"Screen width is \";"),
  ('C18-show-config-changes-status', 'dfs/main.cc', "	  storage.show_drive_configuration(std::cerr);\n	}", "	  storage.show_drive_configuration(std::cerr);\n	  if (storage.get_all_occupied_drive_numbers().size() > 2) return 1;\n	}"),
  ('C18-ui-watford-drops-locked-flag', 'dfs/cmd_cat.cc', "	  if (entry.is_locked())\n	    {", "	  if (entry.is_locked() && !(ui == DFS::UiStyle::Watford && screen_width.value_or(40) < 40))\n	    {"),
+ ('C19-default-dialect-in-assert', 'basic/bbcbasic_to_text.c', "  if (!set_dialect(default_dialect_name, &dialect))\n    {\n      fprintf(stderr, \"The default BASIC dialect '%s' is unknown.  This is a bug.\\n\",\n	      default_dialect_name);\n      return 1;\n    }", "  assert(set_dialect(default_dialect_name, &dialect));"),
+ ('C19-default-listo-in-assert', 'basic/bbcbasic_to_text.c', "  int listo = 7;", "  int listo;\n  assert((listo = 7) == 7);"),
+ ('C19-gz-extension-popped-inside-assert-reversed', 'dfs/img_load.cc', "	compressed = true;\n	extensions.pop_back();", "	compressed = true;\n	extensions.pop_back();\n	assert(extensions.size() < 2 || (extensions.pop_back(), true));"),
  ('C01-start-sector-high-bits-shift', 'dfs/dfs_catalog.h', "					  | ((metadata_byte(6) & 3) << 8));", "					  | ((metadata_byte(6) & 3) << 7));"),
  ('C01-watford-low-byte-only', 'dfs/identify.cc', "	const unsigned int start_sector =\n	  buf1[pos + 7] | ((buf1[pos + 6] & 3u) << 8);", "	const unsigned int start_sector = buf1[pos + 7];"),
  ('C01-opus-single-volume-default', 'dfs/dfs_filesystem.cc', "  if (disc_format() == Format::OpusDDOS && !key)", "  if (volumes_.size() > 1 && !key)"),
